@@ -24,7 +24,7 @@ def cases(run: Run):
     out = list(corpus(PID))
     for _ in range(run.n(5, 40)):
         ns, nt = rng.randint(1, 4), rng.randint(1, 5)
-        decision = rng.choice(["MunkresDecision", "MyopicNaiveGreedyDecision", "RandomDecision", "MunkresDecision"])
+        decision = rng.choice(["MunkresDecision", "MyopicNaiveGreedyDecision", "RandomDecision", "MunkresDecision", "AllVisibleDecision", "AllVisibleDecision"])
         out.append({
             "ns": ns, "nt": nt, "decision": decision, "steps": rng.randint(2, 3), "displace": [rng.random() < 0.4 for _ in range(nt)],
             "slow": [rng.random() < 0.25 for _ in range(ns)], "narrow": rng.random() < 0.4, "seed": rng.randint(1, 10**6), "orders": rng.sample(range(1, 1000), run.n(3, 6)),
@@ -39,7 +39,8 @@ def build_case(c):
     for k in range(c["ns"]):
         lat, lon = SITES[k]
         fov = {"fov_shape": "conic", "cone_angle": 1.0} if c["narrow"] else None
-        sensors.append(scen.radar_cfg(60001 + k, lat, lon, slew=(0.05 if c["slow"][k] else 5.0), fov=fov))
+        # the all-visible policy is only accepted for advanced (phased-array) radars
+        sensors.append(scen.radar_cfg(60001 + k, lat, lon, slew=(0.05 if c["slow"][k] else 5.0), fov=fov, adv=(c["decision"] == "AllVisibleDecision")))
     targets = []
     for k in range(c["nt"]):
         lat, lon = TGT_SPOTS[k]
@@ -173,6 +174,18 @@ def check_step_against_model(run, c, step, mo):
     changed = sorted(int(x.split("=")[0]) for x in sc if not x.endswith("=-"))
     if changed != step["changes"]:
         ok = False
+    # ... and the pointing state each changed sensor ends the step with is the one the model selects (the report of the highest
+    # target id when several jobs tasked the sensor)
+    inv = {v: k for k, v in line_bid.items()}
+    for x in sc:
+        sid, val = x.split("=")
+        if val == "-":
+            continue
+        b, lt = val.split("/")
+        want = (inv.get(int(b)), float(lt))
+        got = step["sensors"].get(int(sid))
+        if got is None or (got[0], float(got[1])) != want:
+            ok = False
     return ok
 
 
@@ -286,7 +299,7 @@ def main():
     )
     run.rule = ("1-4 ground radars x 1-5 LEO targets, Munkres / greedy / random policies, some truths displaced 2.5 deg from their estimates, some sensors too slow "
                 "to slew, narrow fields of view, 2-3 steps; per scenario FIFO + LIFO + 3 (thorough 6) seeded completion orders; every case non-trivial")
-    run.assumptions = ["the all-visible policy (one sensor tasked to several targets in one step) is exercised separately and reported in DESIGN.md"]
+    run.assumptions = ["with the all-visible policy (advanced radars only) one sensor is tasked to several targets in a step: its pointing state is the report of the highest target id"]
     run.lean_phase()
     if run.args.replay:
         rp = json.loads(Path(run.args.replay).read_text())
